@@ -1774,7 +1774,7 @@ def _i_checked_add(it, args, dty, func):
     return none()
 
 
-@trait_model(r"^std::time::Instant$", "Add", "add")
+@trait_model(r"^(std|tokio)::time::Instant$", "Add", "add")
 def _i_add(it, args, dty, func):
     r = _i_checked_add(it, args, dty, func)
     if r.idx == 0:
@@ -1782,7 +1782,7 @@ def _i_add(it, args, dty, func):
     return r.f[0]
 
 
-@trait_model(r"^std::time::Instant$", "Sub", "sub")
+@trait_model(r"^(std|tokio)::time::Instant$", "Sub", "sub")
 def _i_sub(it, args, dty, func):
     b = _deref(args[1])
     if _last(b.ty) == "Instant":
